@@ -214,6 +214,8 @@ def known_triggers(stream, opts, scripting, enc=None):
             for (ns, local), v in t["data"].items():
                 if ns is not None:
                     out.append("C08-attr-prefix-dropped")
+                if "\r" in v:
+                    out.append("C08-cr-written-raw")
                 if enc and _LONE.search(v):
                     out.append("C08-lone-surrogate-encoded")
                 if enc and any(_unencodable(c, enc) for c in _C1.findall(v)):
@@ -229,6 +231,8 @@ def known_triggers(stream, opts, scripting, enc=None):
                 open_el.pop()
         elif ty in ("Characters", "SpaceCharacters"):
             d = t["data"]
+            if "\r" in d:
+                out.append("C08-cr-written-raw")
             if enc and _LONE.search(d):
                 out.append("C08-lone-surrogate-encoded")
             if enc and any(_unencodable(c, enc) for c in _C1.findall(d)):
